@@ -72,6 +72,7 @@ def run(ctx):
     texts += ['License: a\n b\n .x\n', 'Format: f\n\nLicense:\n\nUnknown-Foo: bar baz\n\nFiles: *\n',
               'Format: f\n\nLicense:\n\nUnknown: a\nUnknown: b\n\nFiles: *\n']
     fails = ctx.prop('prop:conservation', texts, p_conserve)
+    fails += ctx.prop('prop:observing-changes-nothing', texts[::max(1, len(texts) // ctx.n(900, 9000))], _copy.p_observe)
     bad = ctx.compare('corr:copyright', [('copyright_from_text', [t]) for t in texts], _copy.impl)
     fails.sort(key=lambda f: len(f[0]))
     for x, why in fails[:20]:
